@@ -36,7 +36,7 @@ func verifC16RealConnect(transport string, secret []byte) (*verifC16RealPair, er
 		if err != nil {
 			return nil, err
 		}
-		p.cleanup = func() { l.Close() }
+		p.cleanup = func() { verifC16Retire(l) }
 		wg.Add(2)
 		go func() {
 			defer wg.Done()
